@@ -15,6 +15,7 @@ KFS = {  # switches of the transcription (HttpFramingOps.tla, constant KF) -> wh
    'verbStrlen': 'Request::parse_request_line converts m_buf with strlen() (message.cpp:369): reads the receive buffer beyond the received bytes up to the first NUL, beyond its end when there is none',
    'staleHeaderRead': 'HeadersBase::parse reads p[0] at the end of the received bytes (headers.cpp:175): a header line without colon is accepted or refused depending on the stale byte behind the data',
    'zeroWrite': 'ChunkedBodyWriteStream::write(buf, 0) emits the last-chunk (body.cpp:306): a zero-length write ends the body, later data is lost for the reader',
+   'headChunked': 'Message::prepare_body_read_stream takes the chunked reader for the response to a HEAD request that carries Transfer-Encoding: chunked (message.cpp:231): the absent body is read as chunks (error at end of stream, or bytes of the next message)',
    'icmpYZ': "stricmp_fast lowers only 'A'..'X' in its 8-byte path (estring.cpp:183): header names of 8+ bytes containing Y/Z are not found case-insensitively",
 }
 PARTS = ['msg', 'body', 'writer', 'mal', 'random', 'big']
@@ -173,6 +174,7 @@ def run(ctx):
     # ---- the real code
     ctx.build_lib()
     h = ctx.build_harness('h_http')
+    h = os.environ.get('C13_HARNESS') or h     # development hook: a harness linked against edited copies of the sources (mutation tests)
     def part(p):
         tr = f'{ctx.out}/http_{p}.ndjson'
         ctx.run_harness(h, ['--out', tr, '--seed', ctx.seed, '--tier', t, '--only', p], ok_rcs=(0, 3), timeout=1500)
